@@ -77,6 +77,10 @@ func (qpc *QuotaPreemptionContext) tryPreemption() {
 		}
 		return
 	}
+	// nothing preemptable after taking the guaranteed resources of the parents into account: nothing to distribute
+	if resources.IsZero(qpc.preemptableResource) {
+		return
+	}
 	leafQueues := make(map[*Queue]*QuotaPreemptionContext)
 	getChildQueuesPreemptableResource(qpc.queue, qpc.preemptableResource, leafQueues)
 
